@@ -279,6 +279,55 @@ def direct_mode_last_token(run):
                                   {'kind': 'direct_mode', 'query': q})
 
 
+def direct_mode_positional_lookalikes(run):
+    """Direct mode: column NAMES that are spelled like positional variables (a3 in position 1, b1 in position 2 of the join table) still denote the
+    column at their header position - 'the bare name denotes exactly the column at that header position, for every set of distinct names'."""
+    mods = impl.load()
+    rbql, eng, rcsv, cu = mods
+    from rbql import rbql_pandas
+    import pandas as pd
+    data = [['u1', 'v1', 'w1'], ['u2', 'v2', 'w2']]
+    for header in (['a3', 'key', 'a1'], ['a2', 'a1', 'x'], ['a1', 'a3', 'a2'], ['x', 'a1', 'y'], ['a1', 'a2', 'a3']):
+        queries = [('select ' + ', '.join(header), [list(r) for r in data])]
+        for pos, name in enumerate(header):
+            queries.append(('select NR, ' + name, [[i + 1, r[pos]] for i, r in enumerate(data)]))
+            queries.append(('select NR where %s == "%s"' % (name, data[1][pos]), [[2]]))
+        for q, want in queries:
+            results = {}
+            try:
+                out = []
+                rbql.query_table(q, [list(r) for r in data], out, [], None, list(header), None, None, False)
+                results['list-direct'] = out
+            except Exception as e:  # noqa
+                results['list-direct'] = 'raised ' + str(e)[:80]
+            try:
+                results['pandas-direct'] = rbql_pandas.query_dataframe(q, pd.DataFrame(data, columns=header), normalize_column_names=False).values.tolist()
+            except Exception as e:  # noqa
+                results['pandas-direct'] = 'raised ' + str(e)[:80]
+            for backend, got in results.items():
+                run.traces += 1
+                run.count(['direct-lookalike', header, q, backend], nontrivial=True)
+                if got != want:
+                    run.violation({'impl': 'py', 'backend': backend, 'what': 'direct mode: a column named like a positional variable is not bound to its header position', 'query': q, 'header': ' '.join(header), 'got': got, 'want': want},
+                                  {'kind': 'direct_mode', 'query': q, 'header': header})
+    # the join table: names spelled b<N>
+    A = [['p', '1'], ['q', '2']]
+    B = [['x', '1'], ['y', '2']]
+    for bhdr, q, want in ((['b2', 'b1'], 'select k, b2 join B on v == b1', [['p', 'x'], ['q', 'y']]),
+                          (['b2', 'b1'], 'select k, b1 join B on v == b1', [['p', '1'], ['q', '2']]),
+                          (['val', 'b1'], 'select k, val join B on v == b1', [['p', 'x'], ['q', 'y']])):
+        try:
+            got = []
+            rbql.query_table(q, [list(r) for r in A], got, [], [list(r) for r in B], ['k', 'v'], list(bhdr), None, False)
+        except Exception as e:  # noqa
+            got = 'raised ' + str(e)[:80]
+        run.traces += 1
+        run.count(['direct-lookalike-join', bhdr, q], nontrivial=True)
+        if got != want:
+            run.violation({'impl': 'py', 'backend': 'list-direct', 'what': 'direct mode: a join column named like a positional variable is not bound to its header position', 'query': q, 'header': ' '.join(bhdr), 'got': got, 'want': want},
+                          {'kind': 'direct_mode', 'query': q, 'header': bhdr})
+
+
 def check(run):
     quick = run.tier == 'quick'
     maxname = 2 if quick else 3
@@ -316,6 +365,7 @@ def check(run):
             run.violation(sig, {'kind': 'modifier_case', 'case': case, 'k': k})
     case_variant_names(run)
     direct_mode_last_token(run)
+    direct_mode_positional_lookalikes(run)
     # the header line is never data at the record-level API either: every history of get_record / get_all_records(n) / get_header /
     # get_warnings / WITH modifier (spec/ReaderApi.tla: NoLossNoDup, HeaderStable), replayed into CSVRecordIterator
     readerapi.check(run, quick)
@@ -332,6 +382,11 @@ def replay(path):
             run.traces += 1
             for sig in sigs:
                 run.violation(sig, c)
+        return run.finish()
+    if c['kind'] in ('direct_mode', 'case_variant'):
+        direct_mode_last_token(run)
+        direct_mode_positional_lookalikes(run)
+        case_variant_names(run)
         return run.finish()
     fn = _bind_chunk if c['kind'] == 'name_case' else _modifier_chunk
     for k, sigs, nruns in fn([(c.get('k', 0), c['case'])]):
